@@ -30,6 +30,9 @@ type Case struct {
 	// Pad > 0: the data set ends with zero bytes of padding, fewer than the shortest possible record
 	// (RFC 7011 3.3.1)
 	Pad int `json:"pad,omitempty"`
+	// MaxBuf: the collectors' MaxBufferSize setting (0: 65535). The messages go straight to the
+	// decoder, as on a stream transport, where that setting has nothing to say about field lengths.
+	MaxBuf uint16 `json:"max_buf,omitempty"`
 }
 
 var (
@@ -102,6 +105,10 @@ func runCase(c Case) *ev.Failure {
 		}
 		glue.NumExtraElements = c.NumExtra
 		defer func() { glue.NumExtraElements = 0 }()
+		if c.Proto == "tcp" {
+			glue.MaxBufferSize = c.MaxBuf
+			defer func() { glue.MaxBufferSize = 0 }()
+		}
 		return glue.NewCol(c.Proto, mode, clk, 1800)
 	}
 	// reference run: the same case with the unknown fields deleted, strict collector
@@ -322,6 +329,7 @@ func clip(b []byte) []byte {
 func genCase(t *rapid.T) Case {
 	c := Case{Proto: rapid.SampledFrom([]string{"tcp", "udp"}).Draw(t, "proto")}
 	c.NumExtra = rapid.SampledFrom([]int{0, 0, 1, 3, 16}).Draw(t, "num_extra")
+	c.MaxBuf = rapid.SampledFrom([]uint16{0, 0, 1024, 100, 1}).Draw(t, "max_buf")
 	if rapid.IntRange(0, 2).Draw(t, "padded") == 0 {
 		c.Pad = rapid.IntRange(1, 64).Draw(t, "pad")
 	}
